@@ -674,7 +674,8 @@ func (blockID *BlockID) Equal(other BlockID) bool {
 
 // Key returns a machine-readable string representation of the BlockID
 func (blockID *BlockID) Key() string {
-	return string(blockID.Hash.String() + blockID.PartsHeader.Hash.String())
+	// two block ids are the same only if the part-set total is equal as well
+	return string(blockID.Hash.String()+blockID.PartsHeader.Hash.String()) + fmt.Sprintf(":%d", blockID.PartsHeader.Total)
 }
 
 // String returns the first 12 characters of hex string representation of the BlockID
